@@ -91,7 +91,8 @@ impl ValueParser {
         r#type: &ScalarType,
     ) -> ScalarValue {
         fn render_scalar<S: Copy + Display>(data: Option<ObjectBinaryRepr>) -> Option<S> {
-            data.as_ref().map(|v| scalar_from_bytes::<S>(&v.raw_data))
+            data.as_ref()
+                .and_then(|v| scalar_from_bytes::<S>(&v.raw_data))
         }
         let in_debugee_loc = data.as_ref().and_then(|d| d.address);
         #[allow(non_upper_case_globals)]
@@ -359,7 +360,7 @@ impl ValueParser {
     ) -> PointerValue {
         let mb_ptr = data
             .as_ref()
-            .map(|v| scalar_from_bytes::<*const ()>(&v.raw_data));
+            .and_then(|v| scalar_from_bytes::<*const ()>(&v.raw_data));
 
         let mut type_ident = pcx.type_graph.identity(type_id);
         if type_ident.is_unknown()
@@ -690,8 +691,13 @@ impl ValueParser {
     }
 }
 
+/// Read `T` from the beginning of `bytes`, `None` if there are fewer bytes than `T` needs
+/// (the value was fetched from a location smaller than its type, e.g. a register).
 #[inline(never)]
-fn scalar_from_bytes<T: Copy>(bytes: &Bytes) -> T {
+fn scalar_from_bytes<T: Copy>(bytes: &Bytes) -> Option<T> {
+    if bytes.len() < std::mem::size_of::<T>() {
+        return None;
+    }
     let ptr = bytes.as_ptr();
-    unsafe { std::ptr::read_unaligned::<T>(ptr as *const T) }
+    Some(unsafe { std::ptr::read_unaligned::<T>(ptr as *const T) })
 }
